@@ -31,7 +31,8 @@ class _Capture(logging.Handler):
 
 
 class Ev:
-    __slots__ = ('seq', 'tid', 'kind', 'base', 'file', 'line', 'func', 'fid', 'escaped', 'ret_none', 'host')
+    __slots__ = ('seq', 'tid', 'kind', 'base', 'file', 'line', 'func', 'fid', 'escaped', 'ret_none', 'host',
+                 'opted_out', 'cfg_empty_at_call')
 
     def __init__(self, seq, tid, kind, frame, host):
         co = frame.f_code
@@ -44,6 +45,8 @@ class Ev:
         self.escaped = None
         self.ret_none = False
         self.host = host
+        self.opted_out = False            # event of a frame the agent declined to trace (it returned None at its call)
+        self.cfg_empty_at_call = False    # ... and whether it had no tracepoints at all at that moment
 
     def key(self):
         return (self.kind, self.base, self.line, self.func)
@@ -103,6 +106,7 @@ class Rig:
         self.all_events = 0
         self.escapes = []         # (Ev, exc type name, traceback text)
         self.monitor_errors = []  # failures of the checking code's own pre/post callbacks (any thread)
+        self.record_opted_out = False   # also record (flagged) the events of frames the agent declined to trace
         self.pre = None           # callable(ev, frame, arg) before the agent sees the event
         self.post = None          # callable(ev, frame, arg) after it
         self.keep_events = True
@@ -183,9 +187,32 @@ class Rig:
                 return L
             return L
 
+        def recorder_only(cfg_empty):
+            # the agent declined this frame: CPython delivers none of its events to it. They are still recorded (flagged)
+            # for checks that want to know what the program did there; the agent is not called.
+            def R(frame, event, arg):
+                host = rig.is_host(frame.f_code.co_filename)
+                with rig._lock:
+                    rig._seq += 1
+                    seq = rig._seq
+                ev = Ev(seq, threading.get_ident(), event, frame, host)
+                ev.opted_out, ev.cfg_empty_at_call = True, cfg_empty
+                if host and rig.keep_events:
+                    rig.events.append(ev)
+                if rig.pre is not None and host:
+                    try:
+                        rig.pre(ev, frame, arg)
+                    except BaseException:  # noqa
+                        rig.monitor_errors.append(traceback.format_exc()[-1500:])
+                return R
+            return R
+
         def W(frame, event, arg):
+            cfg_empty = rig.record_opted_out and len(getattr(rig.handler, '_tp_config', ())) == 0
             r = invoke(handler_call, frame, event, arg)
-            return local(r) if r is not None else None
+            if r is not None:
+                return local(r)
+            return recorder_only(cfg_empty) if rig.record_opted_out else None
 
         return W
 
